@@ -134,7 +134,18 @@ def run_chain(ctor, calls):
 
 
 # ------------------------------------------------------------------ generators
+_DL = drift_literals()  # noqa: F405  (constants of changed hand-modelled functions; empty on the pinned source)
+
+
+def near_literal(rng):
+    L = rng.choice(_DL)
+    return rng.choice([L, -L, L + rng.choice([-1, 1]) * 10 ** rng.uniform(-12, -3), math.nextafter(L, math.inf),
+                       math.nextafter(L, -math.inf)])
+
+
 def gen_height(rng):
+    if _DL and rng.random() < 0.15:
+        return near_literal(rng)
     m = rng.random()
     if m < 0.25:
         return None
@@ -187,6 +198,13 @@ def gen_latlon(rng, stats, prj=None):
     else:
         lon = rng.uniform(-180, 180)
         stats.add('pos:lon-any')
+    if _DL and rng.random() < 0.2:
+        v = near_literal(rng)
+        if rng.random() < 0.5 and abs(v) <= 90:
+            lat = v
+        elif abs(v) <= 180:
+            lon = v
+        stats.add('pos:drift-literal')
     return lat, lon
 
 
@@ -368,7 +386,7 @@ def main():
     t0 = time.time()
     rng = random.Random(f'{seed()}:corr_coord')
     thorough = tier() == 'thorough'
-    nchains = 250000 if thorough else 20000
+    nchains = 250000 if thorough else 20000 * scale()  # noqa: F405
     stats = Stats()
     reqs, impl, what, implicit = [], [], [], []
 
@@ -393,7 +411,7 @@ def main():
         if len(objs) < 4000 and not r.startswith(('ERR', IMPLICIT)):
             objs.append(otok)
     # equality
-    neq = 20000 if thorough else 3000
+    neq = 20000 if thorough else 3000 * scale()  # noqa: F405
     for _ in range(neq):
         a = rng.choice(objs)
         m = rng.random()
